@@ -52,11 +52,11 @@ theorem inv_reachable {w s} (hwf : w.wf) (h : Reachable w s) : Inv w s := by
         fun hu => invf_step hu ih.c (ih.f hu) hs, fun hg => invg_step hg ih.c (ih.g hg) hs,
         fun hl hn0 => invl_step hl ih.c ih.r (ih.l hl hn0) hs⟩
 
-/-- crashes: only `AllTuple<FirstFail>` (D2) can reach a throwing state; no destructor ever throws -/
+/-- crashes: no consumption ever reaches a throwing state, no destructor ever throws -/
 structure InvB (w : Workload) (s : State) : Prop where
   no_dboom : ∀ i, s.pc i ≠ .dboom
-  boom_tuple : ∀ i, s.pc i = .boom → w.strat = .allTuple true
-  crashed_tuple : s.crashed = true → w.strat = .allTuple true
+  no_boom : ∀ i, s.pc i ≠ .boom
+  not_crashed : s.crashed = false
 
 theorem invb_init (w : Workload) : InvB w (init w) := by
   constructor <;> simp [init]
